@@ -13,7 +13,7 @@ EXPLANATION = ("bit provenance of the six header accessors (each setter replaces
                "HeaderRaw::try_from / to_raw / from_raw; per-path table of the option header bytes pushed by the "
                "encoder for each class of delta and length (inline <= 12, 13 + one byte value-13, 14 + two bytes "
                "value-269 high byte first) checked against registry/coap.json; marker written iff a payload is "
-               "emitted; options kept in a BTreeMap of LinkedLists appended with push_back and iterated forwards")
+               "emitted; options kept in a BTreeMap of LinkedLists appended with push_back and iterated forwards; from_raw / to_raw hand the code on exactly as the code table converts it; option numbers on the wire are the registry's (C01.10 = C05.1)")
 NOT_DECIDED = "Not decided: byte-for-byte equality of the image for all messages, and the round trip through the decoder as a whole."
 ASSUMPTIONS = ["token of 0-8 bytes (stated domain)", "little-endian target for u16::from_be / to_be_bytes models"]
 
